@@ -364,6 +364,54 @@ harness! {
     }
 }
 
+// ---- the accepted length cut by concern (quick tier: the quick command has 900 s for build + run, and the harnesses that
+// take every block AND every reference at once need 8-13 min): each part makes the bits that feed one group of fields
+// symbolic and keeps the others concrete.  Cipher = identity under Kani (every block reaches the field code), natively the
+// real cipher runs on the independently encrypted block.
+macro_rules! part26 {
+    ($name:ident, [$m0:expr, $m1:expr, $m2:expr, $m3:expr, $m4:expr], $symref:expr) => {
+        harness! {
+            #[kani::unwind(30)]
+            #[kani::stub(alloc::fmt::format, crate::stubs::fmt_stub)]
+            #[kani::stub(libm::atan2, crate::stubs::k::atan2_stub)]
+            #[kani::stub(rs1090::decode::flarm::btea, btea_identity)]
+            fn $name(s) {
+                let c: [u32; 5] = [0x1234_5678, 0x0abc_def0, 0x4fed_cba9, 0x0765_4321, 0x0357_9bdf];
+                let m: [u32; 5] = [$m0, $m1, $m2, $m3, $m4];
+                let words: [u32; 5] = [(s.u32() & m[0]) | (c[0] & !m[0]), (s.u32() & m[1]) | (c[1] & !m[1]), (s.u32() & m[2]) | (c[2] & !m[2]),
+                                       (s.u32() & m[3]) | (c[3] & !m[3]), (s.u32() & m[4]) | (c[4] & !m[4])];
+                let ts = s.u32();
+                let addr = s.u32();
+                let r0 = s.f64();
+                let r1 = s.f64();
+                vassume!(addr < (1 << 24));
+                let reference = if $symref { [r0, r1] } else { [45.0, 5.0] };
+                let msg = packet(addr, 0x10, &cipher_words(&words, ts, addr), [0, 0]);
+                let r = Flarm::from_record(ts, &reference, &msg[..]);
+                vcover!(r.is_ok());
+                vassert!(r.is_ok(), "well-formed packet decodes");
+                if let Ok(f) = &r {
+                    vassert!(f.decoded.len() == 5 && f.decoded[0] == words[0] && f.decoded[1] == words[1] && f.decoded[2] == words[2]
+                             && f.decoded[3] == words[3] && f.decoded[4] == words[4], "plaintext block recovered");
+                    vassert!(address_of(f) == addr, "device address");
+                    vassert!(f.actype == actype_of(words[0] >> 28), "aircraft type");
+                    vassert!(f.stealth == ((words[0] >> 13) & 1 == 1) && f.no_track == ((words[0] >> 14) & 1 == 1), "stealth / no-track flags");
+                    vassert!(f.gps == (words[0] >> 16) & 0xfff, "GPS status");
+                    vassert!(f.geoaltitude == (words[1] >> 19) & 0x1fff, "altitude (m)");
+                    finite_and_track(f);
+                }
+                core::mem::forget(r);
+            }
+        }
+    };
+}
+// position words x ANY reference bit pattern (NaN / inf / huge included): no panic, finite coordinates
+part26!(part26_position, [0, 0xffff_ffff, 0x3fff_ffff, 0, 0], true);
+// velocity bytes, speed multiplier, vertical speed: track in [0, 360), finite speeds
+part26!(part26_velocity, [0x0000_03ff, 0, 0xc000_0000, 0xffff_ffff, 0xffff_ffff], false);
+// type, flags, GPS status, altitude
+part26!(part26_discrete, [0xffff_fc00, 0xfff8_0000, 0, 0, 0], false);
+
 /// |got * 1e7 - truth| <= 129 (one quantisation step of 128e-7 degrees plus rounding).  Written as a
 /// disjunction whose first member is "got is bit-identical to the centre of the 128-unit bucket that
 /// contains the truth, converted the way a fixed-point decoder converts it": on a decoder that returns
@@ -535,5 +583,5 @@ cipher_word!(cipher_word3, 3);
 cipher_word!(cipher_word4, 4);
 
 registry!(total_len26, total_len00, total_len03, total_len04, total_len19, total_len25, total_len27, total_len40,
-          fields_discrete, fields_discrete_q, total_len26_id, key_schedule, obscure_equiv,
+          fields_discrete, fields_discrete_q, total_len26_id, part26_position, part26_velocity, part26_discrete, key_schedule, obscure_equiv,
           pos_lat_a_00, pos_lat_a_01, pos_lat_a_02, pos_lat_a_03, pos_lat_a_04, pos_lat_a_05, pos_lat_a_06, pos_lat_a_07, pos_lon_a_00, pos_lon_a_01, pos_lon_a_02, pos_lon_a_03, pos_lon_a_04, pos_lon_a_05, pos_lon_a_06, pos_lon_a_07, pos_lon_a_08, pos_lon_a_09, pos_lon_a_10, pos_lon_a_11, pos_lon_a_12, pos_lon_a_13, pos_lon_a_14, pos_lon_a_15, pos_lat_b_00, pos_lat_b_01, pos_lat_b_02, pos_lat_b_03, pos_lat_b_04, pos_lat_b_05, pos_lat_b_06, pos_lat_b_07, pos_lon_b_00, pos_lon_b_01, pos_lon_b_02, pos_lon_b_03, pos_lon_b_04, pos_lon_b_05, pos_lon_b_06, pos_lon_b_07, pos_lon_b_08, pos_lon_b_09, pos_lon_b_10, pos_lon_b_11, pos_lon_b_12, pos_lon_b_13, pos_lon_b_14, pos_lon_b_15, pos_lat_c_00, pos_lat_c_01, pos_lat_c_02, pos_lat_c_03, pos_lat_c_04, pos_lat_c_05, pos_lat_c_06, pos_lat_c_07, pos_lon_c_00, pos_lon_c_01, pos_lon_c_02, pos_lon_c_03, pos_lon_c_04, pos_lon_c_05, pos_lon_c_06, pos_lon_c_07, pos_lon_c_08, pos_lon_c_09, pos_lon_c_10, pos_lon_c_11, pos_lon_c_12, pos_lon_c_13, pos_lon_c_14, pos_lon_c_15, cipher_word0, cipher_word1, cipher_word2, cipher_word3, cipher_word4);
